@@ -68,14 +68,16 @@ func p17GenSysex(r *Rng, tier string, emit func(Case)) {
 			}
 		}
 		via := "drv"
-		if r.Chance(1, 3) {
+		if r.Chance(1, 2) {
 			via = "lib"
 		}
+		// the receive buffer: the default (0 = 1024 bytes) or one the listener asks for
+		buf := r.Pick(0, 0, 16, 100, 1024, 1025, 2048, 4096, 10000)
 		var tl []string
 		for t := range tags {
 			tl = append(tl, t)
 		}
-		emit(Case{Op: "ports.sysex via=" + via + " items=" + strings.Join(items, ","), Tags: append(tl, "testdrv-sysex-"+via), NonTrivial: true})
+		emit(Case{Op: "ports.sysex via=" + via + " buf=" + strconv.Itoa(buf) + " items=" + strings.Join(items, ","), Tags: append(tl, "testdrv-sysex-"+via), NonTrivial: true})
 	}
 }
 
@@ -90,6 +92,11 @@ func p17RunSysex(c Case, m *Model) (v Verdict) {
 		}
 		items = append(items, x)
 	}
+	bufOpt, _ := strconv.Atoi(f["buf"])
+	limit := p17SysexBuf
+	if bufOpt > 0 {
+		limit = bufOpt
+	}
 	var sent, got [][]byte
 	var fail string
 	if p := try(func() {
@@ -103,15 +110,19 @@ func p17RunSysex(c Case, m *Model) (v Verdict) {
 		}
 		listen := func() (func(), error) {
 			if f["via"] == "lib" {
+				opts := []midi.Option{midi.UseSysEx()}
+				if bufOpt > 0 {
+					opts = append(opts, midi.SysExBufferSize(uint32(bufOpt)))
+				}
 				return midi.ListenTo(in, func(msg midi.Message, ms int32) {
 					got = append(got, append([]byte{}, msg.Bytes()...))
-				}, midi.UseSysEx())
+				}, opts...)
 			}
 			return in.Listen(func(b []byte, ms int32) {
 				bb := append([]byte{}, b...)
 				// the raw callback pads short messages to three bytes
 				got = append(got, bb)
-			}, drivers.ListenConfig{SysEx: true})
+			}, drivers.ListenConfig{SysEx: true, SysExBufferSize: uint32(bufOpt)})
 		}
 		stop, err := listen()
 		if err != nil || stop == nil {
@@ -151,14 +162,14 @@ func p17RunSysex(c Case, m *Model) (v Verdict) {
 			j++
 			continue
 		}
-		if len(msg) > p17SysexBuf {
+		if len(msg) > limit {
 			continue
 		}
 		what := "nothing more"
 		if j < len(got) {
 			what = fmt.Sprintf("%d bytes %s", len(got[j]), short(fmt.Sprintf("% X", got[j])))
 		}
-		v.Oracle = append(v.Oracle, fmt.Sprintf("message #%d of the session (%d bytes, fits the receive buffer) did not reach the active listener in order: listener got %s (%d of %d messages delivered so far)", i, len(msg), what, j, len(sent)))
+		v.Oracle = append(v.Oracle, fmt.Sprintf("message #%d of the session (%d bytes, fits the receive buffer of %d) did not reach the active listener in order: listener got %s (%d of %d messages delivered so far)", i, len(msg), limit, what, j, len(sent)))
 		return
 	}
 	if j < len(got) {
